@@ -19,7 +19,8 @@ from . import projobjs as G
 
 
 class Spec:
-    def __init__(self, inputs, call, rules, hand=None, skip=None, out_shape=None, sig=()):
+    def __init__(self, inputs, call, rules, hand=None, skip=None, out_shape=None, sig=(),
+                 skip_part=None):
         self.inputs = inputs          # name -> ndarray (JSON-able witness)
         self.call = call              # sel -> {part: array}
         self.rules = rules            # part -> (rule, tol)
@@ -27,6 +28,7 @@ class Spec:
         self.skip = skip              # index -> reason or None
         self.out_shape = out_shape    # expected composite shape (default: input shape)
         self.sig = sig                # input-class signature (evidence)
+        self.skip_part = skip_part    # (index, part) -> reason or None
 
 
 def _sl(a, sel):
@@ -579,6 +581,169 @@ def boundary_arc(rng, n, shape, variant):
                             "radius": ("num", 1e-9), "angles": ("num", 1e-9)})
 
 
+# ---------------------------------------------------------------------------
+# one special member among ordinary ones, for classes whose constructor or
+# queries have a per-unit degenerate-case branch
+
+# A fallback that is meant for the degenerate unit only (another orientation
+# point for a half circle, a straight line instead of a circle for a diameter,
+# the other nappe's representative) is a per-unit decision.  Written as
+# ``if np.any(degenerate): everything = fallback`` it is invisible on single
+# objects and on composites of generic members.  (seeded change C04-r6-1:
+# BoundaryArc._build_orientation_point switched EVERY arc of a composite to the
+# fallback orientation point as soon as one arc was an exact half circle.)
+
+def _dyadic(rng, lo, hi):
+    """a float in [lo, hi) with few mantissa bits (sums and products of such
+    numbers are exact)."""
+    return float(np.round(rng.uniform(lo, hi) * 64) / 64)
+
+
+ARC_MEMBERS = ("generic", "antipodal-exact", "mirror-y", "generic", "mirror-x", "antipodal-axis")
+
+
+def _arc_member(rng, cls):
+    """two ideal points of the hyperbolic plane (homogeneous, exact where the
+    class says so)."""
+    from . import c04extra as GX
+    if cls == "antipodal-exact":
+        v = GX.exact_null(rng, 2)
+        w = v * np.array([1.0, -1.0, -1.0]) * 2.0 ** int(rng.integers(-1, 2))
+        return v, w
+    if cls == "antipodal-axis":
+        v = np.array([1.0, 0.0, float(rng.choice([-1.0, 1.0]))])
+        if rng.random() < 0.3:
+            v = np.array([1.0, float(rng.choice([-1.0, 1.0])), 0.0])
+        return v, v * np.array([1.0, -1.0, -1.0])
+    t = float(rng.uniform(0.15, 1.4)) * float(rng.choice([-1.0, 1.0]))
+    v = np.array([1.0, math.cos(t), math.sin(t)])
+    if cls == "mirror-y":          # angles t and pi - t: equal y
+        return v, v * np.array([1.0, -1.0, 1.0])
+    if cls == "mirror-x":          # angles t and -t: equal x
+        return v, v * np.array([1.0, 1.0, -1.0])
+    P, Q = G.separated_pair(rng, 2, (), G.ideal, min_sep=0.3)
+    return P, Q
+
+
+def boundary_arc_special(rng, n, shape, variant):
+    """composite BoundaryArcs that mix generic arcs with exact half circles and
+    arcs symmetric about a coordinate axis: data, orientation, ordered endpoint
+    coordinates, circle parameters, the same after flip_orientation and after an
+    orientation-reversing isometry."""
+    H = _H()
+    P = np.empty(shape + (3,))
+    Q = np.empty(shape + (3,))
+    cls = np.empty(shape, dtype=object)
+    for k, i in enumerate(np.ndindex(*shape)):
+        cls[i] = ARC_MEMBERS[(k + variant) % len(ARC_MEMBERS)]
+        P[i], Q[i] = _arc_member(rng, cls[i])
+        if rng.random() < 0.5:
+            P[i], Q[i] = Q[i].copy(), P[i].copy()
+    degrees = bool(variant % 2)
+    model = "klein" if (variant // 2) % 2 else "poincare"
+    R = np.diag([1.0, 1.0, -1.0])
+    if variant % 3:
+        R = rh.rand_isometry(rng, 2, shape=()) @ R
+
+    def call(sel):
+        X = H.BoundaryArc(H.IdealPoint(_sl(P, sel)), H.IdealPoint(_sl(Q, sel)))
+        out = {"primary": np.array(X.proj_data, copy=True),
+               "orientation": np.sign(np.asarray(X.orientation())),
+               "endpoint_coords": X.endpoint_coords("klein")}
+        c, r, th = X.circle_parameters(model=model, degrees=degrees)
+        out.update({"centre": c, "radius": r, "angles": th})
+        Y = H.Isometry(R.copy(), column_vectors=True).apply(X)
+        out["reflected.orientation"] = np.sign(np.asarray(Y.orientation()))
+        out["reflected.endpoint_coords"] = Y.endpoint_coords("klein")
+        out["reflected.angles"] = Y.circle_parameters(model=model, degrees=degrees)[2]
+        X.flip_orientation()
+        out["flipped.orientation"] = np.sign(np.asarray(X.orientation()))
+        out["flipped.endpoint_coords"] = X.endpoint_coords("klein")
+        return {k: np.asarray(v) for k, v in out.items()}
+
+    def hand(i, parts):
+        # the ordered endpoints are the two given ideal points
+        e = np.asarray(parts["endpoint_coords"], dtype=float)
+        want = np.stack([P[i][1:] / P[i][0], Q[i][1:] / Q[i][0]])
+        if e.shape != want.shape:
+            return [("endpoints-are-the-given-ones", np.inf, 1e-9)]
+        d = min(float(np.max(np.abs(e - want))), float(np.max(np.abs(e - want[::-1]))))
+        return [("endpoints-are-the-given-ones", d, 1e-9)]
+
+    rules = {"primary": ("rows", 1e-9), "orientation": ("exact", 0), "endpoint_coords": ("num", 1e-9),
+             "centre": ("num", 1e-9), "radius": ("num", 1e-9), "angles": ("num", 1e-9),
+             "reflected.orientation": ("exact", 0), "reflected.endpoint_coords": ("num", 1e-8),
+             "reflected.angles": ("num", 1e-7), "flipped.orientation": ("exact", 0),
+             "flipped.endpoint_coords": ("num", 1e-9)}
+    return Spec({"P": P, "Q": Q, "member_classes": np.array(cls.tolist(), dtype=str), "R(column)": R},
+                call, rules, hand=hand, sig=tuple(sorted(set(cls.reshape(-1).tolist()))) + (model,))
+
+
+LINE_MEMBERS = ("generic", "diameter-exact", "generic", "opposite-nappes", "diameter-axis")
+
+
+def _line_special(kind):
+    """Segment / Geodesic composites (dimension 2) with members that pass
+    exactly through the origin (a straight line in the Poincare model: the
+    circle degenerates) or whose two points are given in opposite nappes."""
+    def entry(rng, n, shape, variant):
+        H = _H()
+        gen = G.interior if kind == "H.Segment" else G.ideal
+        P = np.empty(shape + (3,))
+        Q = np.empty(shape + (3,))
+        cls = np.empty(shape, dtype=object)
+        for k, i in enumerate(np.ndindex(*shape)):
+            c = LINE_MEMBERS[(k + variant) % len(LINE_MEMBERS)]
+            P[i], Q[i] = G.separated_pair(rng, 2, (), gen, min_sep=0.3)
+            if c in ("diameter-exact", "diameter-axis"):
+                if kind == "H.Segment":
+                    x, y = (_dyadic(rng, 0.1, 0.6), _dyadic(rng, -0.6, 0.6)) if c == "diameter-exact" \
+                        else (0.0, _dyadic(rng, 0.1, 0.8))
+                    P[i] = np.array([1.0, x, y])
+                    Q[i] = np.array([1.0, -x, -y]) * 2.0 ** int(rng.integers(-1, 3))
+                else:
+                    from . import c04extra as GX
+                    v = GX.exact_null(rng, 2) if c == "diameter-exact" else np.array([1.0, 0.0, 1.0])
+                    P[i], Q[i] = v, v * np.array([1.0, -1.0, -1.0]) * 2.0
+            elif c == "opposite-nappes":
+                Q[i] = -Q[i]
+            cls[i] = c
+        model = "halfspace" if variant % 2 else "poincare"
+        degrees = bool((variant // 2) % 2)
+
+        def call(sel):
+            if kind == "H.Segment":
+                X = H.Segment(H.Point(_sl(P, sel)), H.Point(_sl(Q, sel)))
+            else:
+                X = H.Geodesic(H.IdealPoint(_sl(P, sel)), H.IdealPoint(_sl(Q, sel)))
+            c, r, th = X.circle_parameters(model=model, degrees=degrees)
+            out = {"centre": c, "radius": r, "angles": th,
+                   "ideal_basis_coords": X.ideal_basis_coords("klein")}
+            if kind == "H.Geodesic":
+                out["reflection_across"] = X.reflection_across().proj_data
+                out["spacelike_complement"] = X.spacelike_complement().proj_data
+            return {k: np.asarray(v) for k, v in out.items()}
+
+        def skip_part(i, part):
+            if cls[i].startswith("diameter") and part in ("centre", "radius", "angles") \
+                    and model == "poincare":
+                return "diameter: its Poincare circle is a straight line (radius unbounded)"
+            return None
+
+        rules = {"centre": ("num", 1e-7), "radius": ("num", 1e-7), "angles": ("num", 1e-7),
+                 "ideal_basis_coords": ("num", 1e-8)}
+        if kind == "H.Geodesic":
+            rules.update({"reflection_across": ("mat", 1e-7), "spacelike_complement": ("rows", 1e-7)})
+        return Spec({"P": P, "Q": Q, "member_classes": np.array(cls.tolist(), dtype=str)}, call, rules,
+                    skip_part=skip_part, sig=tuple(sorted(set(cls.reshape(-1).tolist()))) + (model,))
+    entry.__name__ = "special-members:" + kind
+    return entry
+
+
+segment_special = _line_special("H.Segment")
+geodesic_special = _line_special("H.Geodesic")
+
+
 ENTRIES = [
     ("Transformation.eigenvector(ev)", eigenvector_given, 1),
     ("Transformation.commute", commute, 1),
@@ -608,5 +773,11 @@ ENTRIES = [
 ENTRIES += [
     ("Transformation.commute[pairwise]", commute_pairwise, 1),
     ("BoundaryArc.queries", boundary_arc, 2),
+]
+# round 6: one special member among ordinary ones
+ENTRIES += [
+    ("BoundaryArc{special-members}", boundary_arc_special, 2),
+    ("Segment{special-members}", segment_special, 2),
+    ("Geodesic{special-members}", geodesic_special, 2),
 ]
 PENDING_ENTRIES = []
